@@ -2849,21 +2849,24 @@ where
         node: &'a AstNode<'a>,
         map: &mut HashMap<String, FootnoteDefinition<'a>>,
     ) {
-        match node.data.borrow().value {
-            NodeValue::FootnoteDefinition(ref nfd) => {
-                map.insert(
-                    strings::normalize_label(&nfd.name, Case::Fold),
-                    FootnoteDefinition {
-                        ix: None,
-                        node,
-                        name: strings::normalize_label(&nfd.name, Case::Preserve),
-                        total_references: 0,
-                    },
-                );
-            }
-            _ => {
-                for n in node.children() {
-                    Self::find_footnote_definitions(n, map);
+        // Explicit work stack (document order) rather than recursion, so that
+        // deeply nested documents cannot overflow the call stack.
+        let mut stack = vec![node];
+        while let Some(node) = stack.pop() {
+            match node.data.borrow().value {
+                NodeValue::FootnoteDefinition(ref nfd) => {
+                    map.insert(
+                        strings::normalize_label(&nfd.name, Case::Fold),
+                        FootnoteDefinition {
+                            ix: None,
+                            node,
+                            name: strings::normalize_label(&nfd.name, Case::Preserve),
+                            total_references: 0,
+                        },
+                    );
+                }
+                _ => {
+                    stack.extend(node.reverse_children());
                 }
             }
         }
@@ -2874,50 +2877,56 @@ where
         map: &mut HashMap<String, FootnoteDefinition>,
         ixp: &mut u32,
     ) {
-        let mut ast = node.data.borrow_mut();
-        let mut replace = None;
-        match ast.value {
-            NodeValue::FootnoteReference(ref mut nfr) => {
-                let normalized = strings::normalize_label(&nfr.name, Case::Fold);
-                if let Some(ref mut footnote) = map.get_mut(&normalized) {
-                    let ix = match footnote.ix {
-                        Some(ix) => ix,
-                        None => {
-                            *ixp += 1;
-                            footnote.ix = Some(*ixp);
-                            *ixp
-                        }
-                    };
-                    footnote.total_references += 1;
-                    nfr.ref_num = footnote.total_references;
-                    nfr.ix = ix;
-                    nfr.name = strings::normalize_label(&footnote.name, Case::Preserve);
-                } else {
-                    replace = Some(nfr.name.clone());
+        // Explicit work stack (document order) rather than recursion, so that
+        // deeply nested documents cannot overflow the call stack.
+        let mut stack = vec![node];
+        while let Some(node) = stack.pop() {
+            let mut ast = node.data.borrow_mut();
+            let mut replace = None;
+            match ast.value {
+                NodeValue::FootnoteReference(ref mut nfr) => {
+                    let normalized = strings::normalize_label(&nfr.name, Case::Fold);
+                    if let Some(ref mut footnote) = map.get_mut(&normalized) {
+                        let ix = match footnote.ix {
+                            Some(ix) => ix,
+                            None => {
+                                *ixp += 1;
+                                footnote.ix = Some(*ixp);
+                                *ixp
+                            }
+                        };
+                        footnote.total_references += 1;
+                        nfr.ref_num = footnote.total_references;
+                        nfr.ix = ix;
+                        nfr.name = strings::normalize_label(&footnote.name, Case::Preserve);
+                    } else {
+                        replace = Some(nfr.name.clone());
+                    }
+                }
+                _ => {
+                    stack.extend(node.reverse_children());
                 }
             }
-            _ => {
-                for n in node.children() {
-                    Self::find_footnote_references(n, map, ixp);
-                }
-            }
-        }
 
-        if let Some(mut label) = replace {
-            label.insert_str(0, "[^");
-            label.push(']');
-            ast.value = NodeValue::Text(label);
+            if let Some(mut label) = replace {
+                label.insert_str(0, "[^");
+                label.push(']');
+                ast.value = NodeValue::Text(label);
+            }
         }
     }
 
     fn cleanup_footnote_definitions(node: &'a AstNode<'a>) {
-        match node.data.borrow().value {
-            NodeValue::FootnoteDefinition(_) => {
-                node.detach();
-            }
-            _ => {
-                for n in node.children() {
-                    Self::cleanup_footnote_definitions(n);
+        // Explicit work stack rather than recursion (see above). The children
+        // are collected before any of them is detached.
+        let mut stack = vec![node];
+        while let Some(node) = stack.pop() {
+            match node.data.borrow().value {
+                NodeValue::FootnoteDefinition(_) => {
+                    node.detach();
+                }
+                _ => {
+                    stack.extend(node.reverse_children());
                 }
             }
         }
